@@ -23,9 +23,9 @@ func init() {
 
 func c12Shapes(tier string) [][]int {
 	if tier == "thorough" {
-		return [][]int{{}, {1}, {1, 1}, {4}, {3, 1}, {1, 3}, {2, 3}, {2, 3, 2}, {2, 2, 3, 2}, {5, 4}}
+		return [][]int{{}, {1}, {1, 1}, {4}, {3, 1}, {1, 3}, {2, 3}, {2, 3, 1}, {2, 3, 2}, {2, 2, 3, 2}, {5, 4}}
 	}
-	return [][]int{{}, {1, 1}, {4}, {1, 3}, {2, 3}, {2, 3, 2}}
+	return [][]int{{}, {1, 1}, {4}, {1, 3}, {2, 3}, {2, 3, 1}, {2, 3, 2}}
 }
 
 func c12Groups(tier string) []core.Group {
@@ -55,7 +55,7 @@ func c12OpType(c *core.Ctx, op string, t reflect.Type) {
 		for _, mode := range c07UnaryModes {
 			dests := []string{""}
 			if mode == "reuse" || mode == "incr" {
-				dests = []string{gen.LC, gen.LS}
+				dests = []string{gen.LC, gen.LS, gen.LF}
 			}
 			if mode == "incr" && !model.IsNumber(t) {
 				continue
